@@ -178,6 +178,10 @@ pub struct Gc<T: Default + Reset + Traceable> {
     /// Weak reference to space - used to check if space is still alive before accessing ptr
     /// This prevents use-after-free when Gc outlives the Space (e.g., during interpreter shutdown)
     space: Weak<RefCell<Space<T>>>,
+
+    /// Verification hook: generation of the slot when this handle was created
+    #[cfg(feature = "tsrun_verif")]
+    generation: u32,
 }
 
 impl<T: Default + Reset + Traceable> PartialEq for Gc<T> {
@@ -197,11 +201,15 @@ impl<T: Default + Reset + Traceable> Eq for Gc<T> {}
 impl<T: Default + Reset + Traceable> Gc<T> {
     /// Borrow the inner data immutably
     pub fn borrow(&self) -> Ref<'_, T> {
+        #[cfg(feature = "tsrun_verif")]
+        self.verif_check("borrow");
         unsafe { self.ptr.as_ref().data.borrow() }
     }
 
     /// Borrow the inner data mutably
     pub fn borrow_mut(&self) -> RefMut<'_, T> {
+        #[cfg(feature = "tsrun_verif")]
+        self.verif_check("borrow_mut");
         unsafe { self.ptr.as_ref().data.borrow_mut() }
     }
 
@@ -222,7 +230,52 @@ impl<T: Default + Reset + Traceable> Gc<T> {
     /// SAFETY: Returns a GcPtr that does NOT have Drop. The caller must ensure
     /// the GcPtr doesn't outlive the original Gc.
     pub fn copy_ref(&self) -> GcPtr<T> {
-        GcPtr { ptr: self.ptr }
+        GcPtr {
+            ptr: self.ptr,
+            #[cfg(feature = "tsrun_verif")]
+            generation: self.generation,
+        }
+    }
+
+    /// Verification hook: record a use of this handle if its slot has been
+    /// reclaimed since the handle was created. Returns true if the handle is stale.
+    #[cfg(feature = "tsrun_verif")]
+    fn verif_check(&self, kind: &'static str) -> bool {
+        if self.space.strong_count() == 0 {
+            return false;
+        }
+        let gc_box = unsafe { self.ptr.as_ref() };
+        let slot_gen = gc_box.generation.get();
+        if slot_gen != self.generation {
+            crate::verif::gc_event(
+                kind,
+                gc_box.index,
+                self.generation,
+                slot_gen,
+                gc_box.pooled.get(),
+            );
+            return true;
+        }
+        false
+    }
+
+    /// Verification hook: whether the slot was reclaimed since this handle was created.
+    #[cfg(feature = "tsrun_verif")]
+    pub fn verif_is_stale(&self) -> bool {
+        if self.space.strong_count() == 0 {
+            return false;
+        }
+        let gc_box = unsafe { self.ptr.as_ref() };
+        gc_box.generation.get() != self.generation
+    }
+
+    /// Verification hook: linear slot index of this handle.
+    #[cfg(feature = "tsrun_verif")]
+    pub fn verif_slot(&self) -> usize {
+        if self.space.strong_count() == 0 {
+            return usize::MAX;
+        }
+        unsafe { self.ptr.as_ref() }.index
     }
 }
 
@@ -235,6 +288,10 @@ impl<T: Default + Reset + Traceable> Gc<T> {
 pub struct GcPtr<T: Default + Reset + Traceable> {
     /// Pointer to the GcBox
     pub(crate) ptr: NonNull<GcBox<T>>,
+
+    /// Verification hook: generation of the handle this pointer was copied from
+    #[cfg(feature = "tsrun_verif")]
+    pub(crate) generation: u32,
 }
 
 impl<T: Default + Reset + Traceable> Copy for GcPtr<T> {}
@@ -255,9 +312,13 @@ impl<T: Default + Reset + Traceable> Clone for Gc<T> {
                 gc_box.ref_count.set(gc_box.ref_count.get() + 1);
             }
         }
+        #[cfg(feature = "tsrun_verif")]
+        self.verif_check("clone");
         Self {
             ptr: self.ptr,
             space: self.space.clone(),
+            #[cfg(feature = "tsrun_verif")]
+            generation: self.generation,
         }
     }
 }
@@ -284,6 +345,17 @@ impl<T: Default + Reset + Traceable> Drop for Gc<T> {
             return;
         }
 
+        #[cfg(feature = "tsrun_verif")]
+        if gc_box.generation.get() != self.generation {
+            crate::verif::gc_event(
+                "drop_reused",
+                gc_box.index,
+                self.generation,
+                gc_box.generation.get(),
+                false,
+            );
+        }
+
         let count = gc_box.ref_count.get();
         if count > 0 {
             gc_box.ref_count.set(count - 1);
@@ -294,6 +366,8 @@ impl<T: Default + Reset + Traceable> Drop for Gc<T> {
             if let Ok(mut space) = space_rc.try_borrow_mut() {
                 // Reset to clear references before pooling
                 gc_box.data.borrow_mut().reset();
+                #[cfg(feature = "tsrun_verif")]
+                crate::verif::gc_count(|c| c.eager_pooled += 1);
                 space.pool_object(gc_box.index, self.ptr);
             }
         }
@@ -352,6 +426,10 @@ pub struct GcBox<T: Default + Reset + Traceable> {
 
     /// Whether this object is in the pool (dead)
     pooled: Cell<bool>,
+
+    /// Verification hook: bumped every time this slot is reclaimed (pooled)
+    #[cfg(feature = "tsrun_verif")]
+    generation: Cell<u32>,
     // Generation counter - incremented each time slot is reused from pool.
     // Old Gc pointers with different generations don't affect ref_count.
     // generation: Cell<u32>,
@@ -364,6 +442,8 @@ impl<T: Default + Reset + Traceable> GcBox<T> {
             data: RefCell::new(data),
             ref_count: Cell::new(0),
             pooled: Cell::new(false),
+            #[cfg(feature = "tsrun_verif")]
+            generation: Cell::new(0),
             // generation: Cell::new(0),
         }
     }
@@ -453,6 +533,8 @@ impl<T: Default + Reset + Traceable> Space<T> {
         } else {
             Rc::new(GuardInner::new())
         };
+        #[cfg(feature = "tsrun_verif")]
+        crate::verif::gc_count(|c| c.guards_created += 1);
         // Register this guard for root tracking
         self.active_guards.push(Rc::downgrade(&inner));
         Guard::new(self.self_weak.clone(), inner)
@@ -493,6 +575,8 @@ impl<T: Default + Reset + Traceable> Space<T> {
             gc_box.data.borrow_mut().reset();
             gc_box.ref_count.set(1); // Start with ref_count = 1 for the returned Gc
             gc_box.pooled.set(false);
+            #[cfg(feature = "tsrun_verif")]
+            crate::verif::gc_count(|c| c.slots_reused += 1);
             ptr
         } else {
             // Need to allocate new - check if current chunk has space
@@ -543,9 +627,13 @@ impl<T: Default + Reset + Traceable> Space<T> {
             NonNull::from(gc_box)
         };
 
+        #[cfg(feature = "tsrun_verif")]
+        crate::verif::gc_count(|c| c.allocations += 1);
         Gc {
             ptr,
             space: self.self_weak.clone(),
+            #[cfg(feature = "tsrun_verif")]
+            generation: unsafe { ptr.as_ref() }.generation.get(),
         }
     }
 
@@ -565,6 +653,8 @@ impl<T: Default + Reset + Traceable> Space<T> {
 
         // Mark as pooled (reset already called in sweep or will be called on reuse)
         gc_box.pooled.set(true);
+        #[cfg(feature = "tsrun_verif")]
+        gc_box.generation.set(gc_box.generation.get().wrapping_add(1));
 
         // Add pointer to pool for reuse
         self.free_list.push(ptr);
@@ -639,6 +729,16 @@ impl<T: Default + Reset + Traceable> Space<T> {
             let data = gc_box.data.borrow();
             data.trace(|child: GcPtr<T>| {
                 let child_box = unsafe { child.ptr.as_ref() };
+                #[cfg(feature = "tsrun_verif")]
+                if child_box.generation.get() != child.generation {
+                    crate::verif::gc_event(
+                        "trace",
+                        child_box.index,
+                        child.generation,
+                        child_box.generation.get(),
+                        child_box.pooled.get(),
+                    );
+                }
                 let child_chunk_idx = child_box.index / CHUNK_CAPACITY;
                 let child_index_in_chunk = child_box.index % CHUNK_CAPACITY;
 
@@ -682,6 +782,12 @@ impl<T: Default + Reset + Traceable> Space<T> {
                 }
             }
         }
+
+        #[cfg(feature = "tsrun_verif")]
+        crate::verif::gc_count(|c| {
+            c.collections += 1;
+            c.swept += collected as u64;
+        });
 
         // Second pass: pool all collected objects
         for ptr in &to_pool {
@@ -883,6 +989,8 @@ impl<T: Default + Reset + Traceable> Guard<T> {
     pub fn guard(&self, obj: Gc<T>) {
         if let Some(_space) = self.space.upgrade() {
             let gc_box = unsafe { obj.ptr.as_ref() };
+            #[cfg(feature = "tsrun_verif")]
+            obj.verif_check("guard");
             if !gc_box.pooled.get() {
                 self.inner.roots.borrow_mut().push(obj.ptr);
             }
